@@ -22,6 +22,10 @@ def run_demo(seed_dir, repo, st):
     demo = os.path.join(seed_dir, "demo")
     readme = open(os.path.join(demo, "README.txt")).read() if os.path.exists(os.path.join(demo, "README.txt")) else ""
     env = dict(os.environ, CARGO_TARGET_DIR=os.path.join(st, "repo-target"))
+    # files a demonstration may have to touch; restored to what they were (the seeded change itself
+    # may have modified them, so a plain `git checkout` would undo part of the change)
+    touched = ["h263/src/decoder/cpu.rs", "deblock/Cargo.toml", "yuv/Cargo.toml", "h263/Cargo.toml"]
+    saved = {f: open(os.path.join(repo, f)).read() for f in touched}
     installed = []
     cmds = []
     name = os.path.basename(seed_dir)
@@ -49,7 +53,8 @@ def run_demo(seed_dir, repo, st):
             ok = False; tail = out[-600:]
     for f in installed:
         os.remove(f)
-    sh(f"git -C {repo} checkout -- h263/src/decoder/cpu.rs deblock/Cargo.toml yuv/Cargo.toml h263/Cargo.toml")
+    for f, content in saved.items():
+        open(os.path.join(repo, f), "w").write(content)
     return ok, tail
 
 def main():
